@@ -10,14 +10,17 @@ REPO ?= /repo
 BUILD ?= $(CURDIR)/build
 QUIET_CGO := 2> >(grep -v 'sqlite3\|warning\|return pNew\|Select standin\|declared here\|\^\||' >&2)
 
-.PHONY: setup coq ocaml harness harness2 legacygen race clean
+.PHONY: setup rest coq ocaml harness harness2 legacygen race clean
 
 setup: coq ocaml harness harness2 legacygen race
 
 coq:
 	cd coq && coq_makefile -f _CoqProject -o Makefile.coq >/dev/null && timeout 1800 $(MAKE) -f Makefile.coq -j16
 
-ocaml: coq
+# "rest" = everything below the shared Coq build (bin/check runs it outside the exclusive lock)
+rest: ocaml harness harness2 legacygen race
+
+ocaml: $(if $(NOCOQ),,coq)
 	mkdir -p $(BUILD)/ocaml && cd $(BUILD)/ocaml && timeout 300 coqc -Q $(CURDIR)/coq IAVL $(CURDIR)/coq/Extract.v \
 	  && cp $(CURDIR)/ocaml/driver.ml . \
 	  && ocamlfind ocamlopt -package str -linkpkg -w -a model.mli model.ml driver.ml -o driver
